@@ -88,7 +88,11 @@ def replay(recipe):
 
 def run(ctx):
     out = SP.run_streams(ctx, MASK, monitor, 'valid-config-raises', [
-        ('G-sim', 350, 6000, {}),
+        ('G-sim', 300, 6000, {}),
+        ('G-sim-saturate-ppool', 80, 1500, dict(saturate='priority-pool')),
+        ('G-sim-saturate-priority', 50, 1000, dict(saturate='priority')),
+        ('G-sim-saturate-overbook', 40, 800, dict(saturate='overbook')),
+        ('G-sim-saturate-naive', 30, 600, dict(saturate='naive')),
     ], known=known)
     st = collections.Counter(out['dist'])
     for i in range(ctx.budget(150, 3000)):
